@@ -65,11 +65,18 @@ def resultLine (k : Kind) (size fsize : Int) : Res → String
 def trimNl (s : String) : String := (s.replace "\n" " ").trimAscii.toString
 
 def parseKind : String → Option Kind
-  | "arr" => some .arr | "str" => some .str | "buf" => some .buf | _ => none
+  | "arr" => some .arr | "str" => some .str | "buf" => some .buf
+  | "aarr" => some .arr      -- array of reference-counted elements ({ code }): same index arithmetic, same codes
+  | _ => none
 
 def runIdxOp (lim : Limits) (op : String) (k : Kind) (size i j r : Int) : Option R :=
   match op with
-  | "index" => some (opIndex k size i)
+  | "index" | "tindex" => some (opIndex k size i)
+  | "trindex" => some (opRindex k size i)
+  | "tne" => some (opErange lim k false size i)
+  | "tre" => some (opErange lim k true size i)
+  | "tnn" => some (opRange lim k false false size i r)
+  | "trr" => some (opRange lim k true true size i r)
   | "rindex" => some (opRindex k size i)
   | "lindex" => some (opLindex k false false size i r)
   | "lrindex" => some (opLindex k true false size i r)
@@ -99,7 +106,11 @@ def cmdEvents (lim : Limits) (scfg : StackCfg) (line : String) : List Ev × Bool
       match parseKind kind with
       | some k =>
         match runIdxOp lim op k size i j r with
-        | some (.ok out) => ([.result (resultLine k size r out.res)], true)
+        | some (.ok out) =>
+          -- `aarr`: the elements are one-element arrays ({ code }), so an indexed element prints as such
+          match kind == "aarr", out.res with
+          | true, .elem off => ([.result ("r " ++ summary .arr [readAt k size off])], true)
+          | _, _ => ([.result (resultLine k size r out.res)], true)
         | some (.error (.lpc m)) => ([.lpcError (trimNl m), .result "r !err"], true)
         | some (.error (.ub _)) => ([.ub "signed-overflow"], false)
         | some (.error (.fatal m)) => ([.crash ("fatal " ++ m)], false)
